@@ -87,7 +87,8 @@ def run_task(task, prop, tier, seed, timeout):
     fl = build.FLAVOURS[task.run["flavour"]]
     env = dict(os.environ)
     env.update(fl["env"])
-    env["OMP_NUM_THREADS"] = "4"
+    # engines that do not choose the construction thread count per case get a different one per shard
+    env["OMP_NUM_THREADS"] = str([4, 3, 7, 2, 5, 12, 1, 16][task.shard % 8])
     env.update(task.run.get("env", {}))
     resume = None
     attempt = 0
@@ -201,6 +202,14 @@ def run_check(prop, tier, seed):
     os.makedirs(RUNDIR, exist_ok=True)
     os.makedirs(EVIDENCE, exist_ok=True)
     build.prune()
+    now = time.time()
+    for f in os.listdir(RUNDIR):  # worker logs of earlier runs
+        fp = os.path.join(RUNDIR, f)
+        try:
+            if f.startswith(f"{prop}.{tier}.") or now - os.path.getmtime(fp) > 6 * 3600:
+                os.unlink(fp)
+        except OSError:
+            pass
 
     # 1. build
     bins = []
